@@ -271,8 +271,9 @@ type named[T any] struct {
 // AEAD
 
 func (b *builder) buildAEAD() {
-	// aesgcm: the constructor also takes 24-byte keys and other IV/tag sizes,
-	// but key generation and the primitive only accept 16/32, IV 12, tag 16.
+	// aesgcm: the constructor also takes 24-byte keys (key generation refuses
+	// them) and other IV/tag sizes (the key template cannot express them, so
+	// the manager silently generates an IV-12/tag-16 key instead).
 	gv := []named[aesgcm.Variant]{{VTink, aesgcm.VariantTink}, {VCrunchy, aesgcm.VariantCrunchy}, {VRaw, aesgcm.VariantNoPrefix}}
 	for _, ks := range []int{16, 32} {
 		for _, v := range gv {
@@ -457,7 +458,9 @@ func (b *builder) buildSignature() {
 		}
 	}
 
-	// rsassapss: salt lengths 0, the digest size, and one odd value.
+	// rsassapss: salt lengths 0, the digest size, and one odd value. Signing is
+	// randomized even for salt length 0: crypto/rsa reads SaltLength 0 as
+	// PSSSaltLengthAuto and the signer then uses the longest salt that fits.
 	type rs struct {
 		bits int
 		h    rsassapss.HashType
@@ -473,7 +476,7 @@ func (b *builder) buildSignature() {
 		for _, vn := range c.vs {
 			p, err := rsassapss.NewParameters(rsassapss.ParametersValues{ModulusSizeBits: c.bits, SigHashType: c.h, MGF1HashType: c.h,
 				PublicExponent: 65537, SaltLengthBytes: c.salt}, sv[vn])
-			b.add(Signature, "rsassapss", fmt.Sprintf("n%d-%s-salt%d-e65537", c.bits, c.h, c.salt), vn, c.salt > 0, p, err)
+			b.add(Signature, "rsassapss", fmt.Sprintf("n%d-%s-salt%d-e65537", c.bits, c.h, c.salt), vn, true, p, err)
 		}
 	}
 
@@ -569,7 +572,6 @@ func (b *builder) buildHybrid() {
 	unc := named[ecies.PointFormat]{"UNCOMPRESSED", ecies.UncompressedPointFormat}
 	cmp := named[ecies.PointFormat]{"COMPRESSED", ecies.CompressedPointFormat}
 	leg := named[ecies.PointFormat]{"LEGACYUNCOMPRESSED", ecies.LegacyUncompressedPointFormat}
-	none := named[ecies.PointFormat]{"NOPF", ecies.UnspecifiedPointFormat}
 	const (
 		dA128GCM = iota
 		dA256GCM
@@ -579,11 +581,18 @@ func (b *builder) buildHybrid() {
 		dA256CTR
 	)
 	var list []ec
-	// P-256 / SHA256 / uncompressed: every DEM × every variant.
+	// ecies.NewParameters also accepts curve X25519 and an XChaCha20-Poly1305
+	// DEM, and keys can be generated for both, but hybrid.NewHybridEncrypt /
+	// NewHybridDecrypt refuse them ("unsupported curve", "unsupported AEAD DEM
+	// key type"), so they are not listed (TestLeftOut pins this down).
+	//
+	// P-256 / SHA256 / uncompressed: every usable DEM × every variant.
 	for d := range dems {
-		list = append(list, ec{ecies.NISTP256, ecies.SHA256, unc, d, false, ev})
+		if d != dXC20P {
+			list = append(list, ec{ecies.NISTP256, ecies.SHA256, unc, d, false, ev})
+		}
 	}
-	// Every NIST curve × the other point formats (and P-384/P-521 uncompressed), all variants on AES128-GCM.
+	// Every NIST curve × every point format.
 	list = append(list,
 		ec{ecies.NISTP256, ecies.SHA256, cmp, dA128GCM, false, ev},
 		ec{ecies.NISTP256, ecies.SHA256, leg, dA128GCM, false, ev},
@@ -591,29 +600,19 @@ func (b *builder) buildHybrid() {
 		ec{ecies.NISTP384, ecies.SHA384, cmp, dA128CTR, false, tinkOnly},
 		ec{ecies.NISTP384, ecies.SHA384, leg, dA256SIV, false, tinkOnly},
 		ec{ecies.NISTP521, ecies.SHA512, unc, dA256GCM, false, ev},
-		ec{ecies.NISTP521, ecies.SHA512, cmp, dXC20P, false, tinkOnly},
+		ec{ecies.NISTP521, ecies.SHA512, cmp, dA256SIV, false, tinkOnly},
 		ec{ecies.NISTP521, ecies.SHA512, leg, dA256CTR, false, tinkOnly},
 	)
 	// Every hash on P-256 (SHA256 is above).
 	for _, h := range []ecies.HashType{ecies.SHA1, ecies.SHA224, ecies.SHA384, ecies.SHA512} {
 		list = append(list, ec{ecies.NISTP256, h, unc, dA128GCM, false, tinkOnly})
 	}
-	// X25519: every DEM as TINK, all variants on AES256-GCM.
-	for d := range dems {
-		vs := tinkOnly
-		if d == dA256GCM {
-			vs = ev
-		}
-		list = append(list, ec{ecies.X25519, ecies.SHA256, none, d, false, vs})
-	}
 	// With salt.
 	list = append(list,
 		ec{ecies.NISTP256, ecies.SHA256, unc, dA128GCM, true, ev},
 		ec{ecies.NISTP256, ecies.SHA256, cmp, dA256SIV, true, tinkOnly},
 		ec{ecies.NISTP384, ecies.SHA512, unc, dA128CTR, true, tinkOnly},
-		ec{ecies.NISTP521, ecies.SHA512, unc, dXC20P, true, tinkOnly},
-		ec{ecies.X25519, ecies.SHA256, none, dA128GCM, true, ev},
-		ec{ecies.X25519, ecies.SHA512, none, dXC20P, true, tinkOnly},
+		ec{ecies.NISTP521, ecies.SHA512, leg, dA256GCM, true, ev},
 	)
 	for _, c := range list {
 		for _, v := range c.vs {
